@@ -185,6 +185,12 @@ func (p *Conn) checkProxyHeader() error {
 	if err == ErrNoProxyProtocol { // ignore ErrNoProxyProtocol
 		return nil
 	}
+	if err == io.EOF && p.bufReader.Buffered() > 0 && p.lmtReader.N > 0 {
+		// The peer closed before a whole signature could be compared, so
+		// there is no proxy header. Read() has only peeked so far: the bytes
+		// received are still in bufReader and are passed through.
+		return nil
+	}
 	if err != nil {
 		p.Close()
 		p.headerErr = err
